@@ -485,6 +485,25 @@ func checkC08(c *Ctx) {
 				}
 			}
 		}
+		// (d) the engine's set-up operation hands game count and participants unchanged to the gate
+		if okChain {
+			found := false
+			for _, f := range p.Funcs {
+				for _, ci := range Calls(f) {
+					if calleeName(ci.Common()) != "OpenGameManager.Setup" {
+						continue
+					}
+					found = true
+					args := ci.Common().Args
+					if !(len(f.Params) == 3 && len(args) == 2 && symIsParam(p.Sym(args[0]), f.Params[1]) && symIsParam(p.Sym(args[1]), f.Params[2]) && len(p.Guards(ci)) == 0) {
+						okChain, d = false, "the set-up operation ("+fnName(f)+") does not pass the game count and the participants it was given unchanged to the gate"
+					}
+				}
+			}
+			if !found {
+				okChain, d = false, "nothing arms the open-game gate"
+			}
+		}
 		c.Check(okChain, "R5", "set-up-participants-chain", p.Pos(handler.Pos()), "participants = settled participants with chips (settle → continue → handler)", "who the next hand waits for: "+d)
 	}
 
